@@ -154,4 +154,118 @@ def c13(tier, seed):
     return common.finish("C13", tier, seed, "model_checking", out, cov, t0, machinery_error=err)
 
 
-CHECKS = {"C13": c13}
+def c05(tier, seed):
+    import json
+    import export
+    import gen
+    import gen_blocks
+    import impl
+    from checks_design import Coverage, canon, batches, select_cases
+    t0 = time.time()
+    cov, out, err = Coverage(), [], None
+    try:
+        rng = random.Random(seed)
+        cases = gen.systematic_flat() + gen.systematic_corner() + gen.random_flat(rng, 20 if tier == "quick" else 300)
+        cases += [c for c in gen_blocks.systematic_blocks() if "Nest" not in c["tags"]]
+        cases += gen.weighted_cases(rng, 10 if tier == "quick" else 150)
+        cases += common.witness_cases("C05")
+        maxl = 1500 if tier == "quick" else 12000
+        for batch in batches(cases, 250):
+            obs = impl.run_tasks([(c, [{"op": "drawtree", "max_leaves": maxl, "timeout": 120 if tier == "quick" else 600}]) for c in batch],
+                                 op_timeout=150 if tier == "quick" else 700)
+            lcases, lmap = [], []
+            for c, o in zip(batch, obs):
+                cov.evaluations += 1
+                if not o or o[0].get("status") != "built" or len(o) < 2:
+                    continue
+                d = o[1]
+                if d.get("status") == "raised":
+                    out.append(violation("C05", "raised", c, strategy="RandomGen", exc=d.get("exc"), site=d.get("site"),
+                                         op="drawtree", detail=d.get("msg")))
+                    continue
+                if d.get("status") != "returned" or d["truncated"] or not d["leaves"]:
+                    cov.notes["trees_too_large"] = cov.notes.get("trees_too_large", 0) + 1
+                    continue
+                den = 1
+                big = False
+                for lf in d["leaves"]:
+                    p = 1
+                    for n, v in lf["draws"]:
+                        p *= n
+                    if p > 2000000:
+                        big = True
+                if big:
+                    cov.notes["denominators_too_large"] = cov.notes.get("denominators_too_large", 0) + 1
+                    continue
+                lcases.append({"leaves": d["leaves"]})
+                lmap.append((c, d))
+            if not lcases:
+                continue
+            # accepted leaves are valid sequences, and all valid sequences have an accepted leaf: Design specification
+            tcases = []
+            for (c, d) in lmap:
+                acc = [lf["seq"] for lf in d["leaves"] if lf["acc"]]
+                tcases.append(export.tlc_case(c, impl=acc, traces=[{"n": len(s), "s": s, "hidden": []} for s in acc], enum=True))
+            path = tlc.write_cases(tcases, "c05")
+            tr = tlc.run_with_norm("MCTrace.tla", "MCTrace.cfg", path, timeout=1500)
+            er = tlc.run_with_norm("MCEnum.tla", "MCEnum.cfg", path, env={"VERIF_PRUNE": "1"}, timeout=1500)
+            os.unlink(path)
+            cov.stats["states"] = cov.stats.get("states", 0) + tr.distinct + er.distinct
+            cov.stats["transitions"] = cov.stats.get("transitions", 0) + tr.states + er.states
+            # multiplicity of every accepted sequence (R11) comes from the Design specification
+            for rec in tr.records:
+                if rec[0] == "V":
+                    c, d = lmap[rec[1] - 1]
+                    accl = [lf for lf in d["leaves"] if lf["acc"]]
+                    accl[rec[2] - 1]["mult"] = rec[4] if rec[3] == "ok" else 1
+            for lc in lcases:
+                for lf in lc["leaves"]:
+                    lf.setdefault("mult", 1)
+            path = tlc.write_cases(lcases, "tree")
+            try:
+                r = tlc.run("RandomLoop.tla", "RandomLoop.cfg", env={"VERIF_CASES": path}, tags=("TREE", "UNIF"), timeout=1500)
+            finally:
+                os.unlink(path)
+            cov.stats["states"] += r.distinct
+            cov.stats["transitions"] += r.states
+            unif = {}
+            for rec in r.records:
+                if rec[0] == "TREE":
+                    c, d = lmap[rec[1] - 1]
+                    out.append(violation("C05", "tree", c, verdict=rec[3], depth=rec[2]))
+                else:
+                    unif[rec[1]] = rec
+            bad = {}
+            for rec in tr.records:
+                if rec[0] == "V" and rec[3] != "ok":
+                    bad.setdefault(rec[1], rec[3])
+            miss = {}
+            for rec in er.records:
+                if rec[0] == "MISSING":
+                    miss.setdefault(rec[1], []).append(rec[2])
+            for i, (c, d) in enumerate(lmap):
+                u = unif.get(i + 1)
+                if u is None:
+                    raise tlc.TLCError("no UNIF record")
+                nacc = u[3]
+                cov.stats["traces"] = cov.stats.get("traces", 0) + len(d["leaves"])
+                if u[2] != "ok":
+                    out.append(violation("C05", "uniformity", c, verdict=u[2], accepted=nacc, leaves=u[4]))
+                if i + 1 in bad:
+                    out.append(violation("C05", "invalid", c, strategy="RandomGen", verdict=bad[i + 1], accepted=nacc))
+                if i + 1 in miss:
+                    out.append(violation("C05", "missing", c, strategy="RandomGen", count=len(miss[i + 1]), accepted=nacc,
+                                         example=miss[i + 1][0]))
+                if nacc > 1:
+                    cov.nontrivial.add(canon(c))
+                    cov.sample({"case": common.brief_case(c), "leaves": u[4], "accepted": nacc, "one_leaf": d["leaves"][0]})
+    except tlc.TLCError as e:
+        err = str(e)[:2000]
+    return common.finish("C05", tier, seed, "model_checking", out, cov.as_dict(
+        "the complete tree of random.randrange outcomes of RandomGen's first candidate (real sampler, scripted source) for every "
+        "design whose tree has at most %d leaves; RandomLoop.tla replays every path (well-formed tree: same range, all values), "
+        "then judges the accepted leaves: one per sequence, equal total probability; MCTrace/MCEnum: accepted sequences = valid "
+        "sequences; non-trivial = more than one accepted leaf" % (1500 if tier == "quick" else 12000)), t0, machinery_error=err)
+
+
+CHECKS = {"C13": c13, "C05": c05}
